@@ -535,10 +535,36 @@ def run_mcase(case):
                 stack.extend(v)
         return True
 
+    fresh = False      # the previous operation was a successful hold
     for op in case['ops']:
         k = op[0]
+        was_fresh, fresh = fresh, False
         keep.append(copy.copy(doc) if isinstance(doc, (list, dict)) else doc)
-        if k == 'set':
+        if k == 'setfrom':
+            _, p, v, cascade = op
+            vcounter = label_value(cx, v, vcounter)
+            if not was_fresh or not held:
+                ob = ON("skip")
+            else:
+                def th():
+                    e = build_path(cx, p)
+                    r = set_(e, v, held[-1], cascade=cascade)
+                    return ON("value", [lval(cx, r)])
+                ob = attempt("setfrom", th)
+        elif k == 'popfrom':
+            _, p, d = op
+            if d is not None:
+                vcounter = label_value(cx, d[0], vcounter)
+            if not was_fresh or not held:
+                ob = ON("skip")
+            else:
+                def th():
+                    e = build_path(cx, p)
+                    r = pop(e, held[-1]) if d is None else pop(e, held[-1], default=d[0])
+                    keep.append(r)
+                    return ON("got", [lval(cx, r)])
+                ob = attempt("popfrom", th)
+        elif k == 'set':
             _, p, v, cascade, as_match = op
             vcounter = label_value(cx, v, vcounter)
 
@@ -608,7 +634,9 @@ def run_mcase(case):
                     return ON("none")
                 held.append(m)
                 return ON("result", [mref(cx, m)])
+            nh = len(held)
             ob = attempt_noev("hold", th)
+            fresh = len(held) > nh
         elif k == 'assign':
             _, i, v = op
             vcounter = label_value(cx, v, vcounter)
